@@ -77,7 +77,45 @@ func victimOps(sh shape, pess bool) []M {
 
 // runVictim runs the victim with the given per-RPC policy installed from the moment Commit is called; returns
 // the number of protocol RPCs the victim's client issued since then (after the background work has drained).
+// warm lets the clients that will act after the crash learn the region layout first, so that a later split or
+// leader change is met with a stale region cache (region errors during recovery)
+func warm(w *World, names ...string) {
+	for _, n := range names {
+		cl := w.client(n)
+		ts, err := cl.store.CurrentTimestamp("global")
+		if err == nil {
+			_, _ = cl.store.GetSnapshot(ts).BatchGet(context.Background(), keysOf([]int{1, 2, 3, 4}))
+		}
+	}
+}
+
 func runVictim(w *World, r *Run, sh shape, pess bool, policy func(idx int, req *tikvrpc.Request) Action) int {
+	return runVictimAs(w, r, "v", sh, pess, policy)
+}
+
+func runVictimAs(w *World, r *Run, name string, sh shape, pess bool, policy func(idx int, req *tikvrpc.Request) Action) int {
+	if name != "v" {
+		ops := victimOps(sh, pess)
+		for _, o := range ops {
+			o["txn"] = name
+			if gets(o, "c") == "begin" {
+				o["client"] = name
+			}
+			r.do(o)
+		}
+		g := w.client(name).gate
+		w.schedMu.Lock()
+		g.n = 0
+		g.policy = policy
+		w.schedMu.Unlock()
+		r.do(M{"c": "commit", "txn": name})
+		w.drained(0)
+		w.schedMu.Lock()
+		n := int(g.n)
+		g.policy = nil
+		w.schedMu.Unlock()
+		return n
+	}
 	for _, o := range victimOps(sh, pess) {
 		r.do(o)
 	}
@@ -118,10 +156,26 @@ func companion(w *World, r *Run, kind string) {
 	case "split":
 		w.split(2)
 		w.split(4)
+	case "split_at_check": // the region of the primary splits between the reader meeting a lock and its status check
+		w.advance(30000)
+		g := w.client("r").gate
+		var once int32
+		w.schedMu.Lock()
+		g.policy = func(idx int, req *tikvrpc.Request) Action {
+			if req.Type == tikvrpc.CmdCheckTxnStatus && atomic.CompareAndSwapInt32(&once, 0, 1) {
+				return Action{pre: func() { w.split(2); w.split(3); w.split(4) }}
+			}
+			return Action{}
+		}
+		w.schedMu.Unlock()
+		r.seq("r", M{"c": "begin", "txn": "rd", "pess": false}, M{"c": "get", "txn": "rd", "k": 3}, M{"c": "get", "txn": "rd", "k": 4}, M{"c": "batchget", "txn": "rd", "ks": []int{1, 2, 3, 4}}, M{"c": "rollback", "txn": "rd"})
+		w.schedMu.Lock()
+		g.policy = nil
+		w.schedMu.Unlock()
 	}
 }
 
-var companions = []string{"none", "reader", "early_reader", "writer", "pess_writer", "gc", "split"}
+var companions = []string{"none", "reader", "early_reader", "writer", "pess_writer", "gc", "split", "split_at_check"}
 
 func runC02(w *World, rng *rand.Rand, div int) {
 	if div < 1 {
@@ -135,18 +189,44 @@ func runC02(w *World, rng *rand.Rand, div int) {
 				w.reset(M{"kind": "c02dry", "shape": sh.name, "pess": pess}, lay)
 				r := &Run{w: w, txns: map[string]*Txn{}}
 				r.setup(baseData)
-				n := runVictim(w, r, sh, pess, nil)
+				firstCommit := int32(-1)
+				n := runVictim(w, r, sh, pess, func(idx int, req *tikvrpc.Request) Action {
+					if req.Type == tikvrpc.CmdCommit {
+						atomic.CompareAndSwapInt32(&firstCommit, -1, int32(idx))
+					}
+					return Action{}
+				})
 				w.recoverAll(r)
+				type cp struct {
+					i    int
+					f    string
+					comp string
+				}
+				var points []cp
 				for i := 0; i < n; i++ {
 					for fi, f := range []string{"crash_before", "crash_after"} {
 						cnt++
-						if (cnt+int(rng.Int63()%int64(div)))%div != 0 {
+						if firstCommit >= 0 && i >= int(firstCommit) {
+							// the window in which the outcome is already decided on the primary: every companion
+							for _, c := range companions {
+								points = append(points, cp{i, f, c})
+							}
 							continue
 						}
-						comp := companions[(i+si+li+fi+cnt)%len(companions)]
+						points = append(points, cp{i, f, companions[(i+si+li+fi+cnt)%len(companions)]})
+					}
+				}
+				for pi, pt := range points {
+					{
+						i, f, comp := pt.i, pt.f, pt.comp
+						cnt++
+						if (pi+int(rng.Int63()%int64(div)))%div != 0 {
+							continue
+						}
 						w.reset(M{"kind": "c02", "shape": sh.name, "pess": pess, "crash_idx": i, "crash": f, "companion": comp, "rpcs": n}, lay)
 						r := &Run{w: w, txns: map[string]*Txn{}}
 						r.setup(baseData)
+						warm(w, "zr", "r", "x", "g")
 						var fired int32
 						runVictim(w, r, sh, pess, func(idx int, req *tikvrpc.Request) Action {
 							if idx == i && atomic.CompareAndSwapInt32(&fired, 0, 1) {
@@ -156,6 +236,22 @@ func runC02(w *World, rng *rand.Rand, div int) {
 						})
 						// whatever the victim still tries is lost with it
 						w.client("v").gate.dead.Store(true)
+						if len(sh.writes) > 1 && (cnt/div)%3 == 0 {
+							// a second client reuses the first victim's primary key and dies right after its prewrite: two dead
+							// transactions with the same primary key are then met by the same recovery pass
+							pk := geti(sh.writes[0], "k")
+							if len(sh.lockFirst) > 0 {
+								pk = sh.lockFirst[0]
+							}
+							var f2 int32
+							runVictimAs(w, r, "v2", shape{"second", []M{{"c": "set", "k": pk, "v": 21}}, nil, nil}, false, func(idx int, req *tikvrpc.Request) Action {
+								if req.Type == tikvrpc.CmdPrewrite && atomic.CompareAndSwapInt32(&f2, 0, 1) {
+									return Action{kind: "crash_after"}
+								}
+								return Action{}
+							})
+							w.client("v2").gate.dead.Store(true)
+						}
 						companion(w, r, comp)
 						w.recoverAll(r)
 					}
@@ -163,10 +259,78 @@ func runC02(w *World, rng *rand.Rand, div int) {
 			}
 		}
 	}
+	// two dead transactions that share a primary key, met by one GC-style batch resolution (or by a reader)
+	for _, sh := range shapes {
+		if len(sh.writes) < 2 {
+			continue
+		}
+		for _, lay := range layouts {
+			for _, pess := range []bool{false, true} {
+				for variant := 0; variant < 4; variant++ {
+					cnt++
+					if (cnt+int(rng.Int63()%int64(div)))%div != 0 && div > 1 && variant > 1 {
+						continue
+					}
+					comp := []string{"gc", "reader"}[variant%2]
+					ackFirst := variant < 2
+					w.reset(M{"kind": "c02", "shape": sh.name, "pess": pess, "crash_idx": -1, "crash": "double", "companion": comp, "ack_first": ackFirst}, lay)
+					r := &Run{w: w, txns: map[string]*Txn{}}
+					r.setup(baseData)
+					warm(w, "zr", "r", "g")
+					var fired int32
+					runVictim(w, r, sh, pess, func(idx int, req *tikvrpc.Request) Action {
+						if ackFirst {
+							// die right after the primary commit took effect: the answer reaches the application, the secondaries stay locked
+							if req.Type == tikvrpc.CmdCommit && atomic.AddInt32(&fired, 1) == 2 {
+								return Action{kind: "crash_before"}
+							}
+							return Action{}
+						}
+						if req.Type == tikvrpc.CmdCommit && atomic.CompareAndSwapInt32(&fired, 0, 1) {
+							return Action{kind: "crash_before"}
+						}
+						return Action{}
+					})
+					w.client("v").gate.dead.Store(true)
+					pk := geti(sh.writes[0], "k")
+					if pess {
+						pk = 0
+						for k := 1; k <= w.nkeys && pk == 0; k++ {
+							for _, e := range []M{w.proj()} {
+								if l := e["lock"].([]M)[k-1]; geti(l, "primary") != 0 {
+									pk = geti(l, "primary")
+								}
+							}
+						}
+						if pk == 0 {
+							pk = geti(sh.writes[0], "k")
+						}
+					}
+					// the second victim reuses the primary key and also locks a key next to the first victim's orphan secondary,
+					// so that one region holds locks of two transactions that name the same primary key
+					other := 4
+					if pk == 4 {
+						other = 3
+					}
+					var f2 int32
+					runVictimAs(w, r, "v2", shape{"second", []M{{"c": "set", "k": pk, "v": 21}, {"c": "set", "k": other, "v": 24}}, nil, nil}, false, func(idx int, req *tikvrpc.Request) Action {
+						// die once both prewrites have taken effect (one request per region)
+						if req.Type == tikvrpc.CmdCommit && atomic.CompareAndSwapInt32(&f2, 0, 1) {
+							return Action{kind: "crash_before"}
+						}
+						return Action{}
+					})
+					w.client("v2").gate.dead.Store(true)
+					companion(w, r, comp)
+					w.recoverAll(r)
+				}
+			}
+		}
+	}
 	_ = fmt.Sprint
 }
 
-var faultKinds = []string{"drop_req", "drop_resp", "not_leader", "epoch_not_match", "server_busy", "stale_command", "split", "expire_resolve", "push_minc"}
+var faultKinds = []string{"blackout", "drop_req", "drop_resp", "not_leader", "epoch_not_match", "server_busy", "stale_command", "split", "expire_resolve", "push_minc"}
 
 func faultAction(w *World, r *Run, f string, tag string) Action {
 	switch f {
@@ -181,6 +345,11 @@ func faultAction(w *World, r *Run, f string, tag string) Action {
 		return Action{pre: func() {
 			r.seq("r"+tag, M{"c": "begin", "txn": "rd" + tag, "pess": false}, M{"c": "get", "txn": "rd" + tag, "k": 1}, M{"c": "rollback", "txn": "rd" + tag})
 		}}
+	}
+	if f == "blackout" { // from this request on nothing of this client gets through any more (until it gives up)
+		g := w.client("v").gate
+		g.blackout.Store(true)
+		return Action{kind: "drop_req"}
 	}
 	return Action{kind: f}
 }
